@@ -68,6 +68,11 @@ func (v valueSpec) render() string {
 	case "bigset":
 		sizes := []int{1000, 1001, 2001}
 		return fmt.Sprintf("(\"before\", set(range(%d)), %d)", sizes[((n%3)+3)%3], n)
+	case "floatspecial":
+		return []string{"float(\"nan\")", "float(\"inf\")", "-0.0", "float(\"-inf\")", "1e308", "5e-324"}[((n%6)+6)%6]
+	case "memo255":
+		// more than 255 memoized objects, then references to an early and a late one
+		return fmt.Sprintf("(lambda xs: xs + [xs[0], xs[299], %d])([[i] for i in range(300)])", n)
 	case "tupslice":
 		// a tuple and a prefix slice of it (the slice shares the tuple's storage)
 		return fmt.Sprintf("(lambda t: (t, t[:%d]))((10, 20, 30, 40, 50, 60, 70))", 1+((n%6)+6)%6)
